@@ -26,10 +26,21 @@ fn rt_bincode<T: Serialize + DeserializeOwned>(x: &T) -> Result<T, String> {
     let s = bincode::serialize(x).map_err(|e| format!("serialize: {}", e))?;
     bincode::deserialize(&s).map_err(|e| format!("deserialize: {}", e))
 }
+/// the same formats read from an `io::Read` source: the deserializer then cannot lend the input and hands the
+/// visitor transient (non-borrowed) bytes
+fn rt_json_reader<T: Serialize + DeserializeOwned>(x: &T) -> Result<T, String> {
+    let s = serde_json::to_vec(x).map_err(|e| format!("serialize: {}", e))?;
+    serde_json::from_reader(std::io::Cursor::new(s)).map_err(|e| format!("deserialize: {}", e))
+}
+fn rt_bincode_reader<T: Serialize + DeserializeOwned>(x: &T) -> Result<T, String> {
+    let s = bincode::serialize(x).map_err(|e| format!("serialize: {}", e))?;
+    bincode::deserialize_from(std::io::Cursor::new(s)).map_err(|e| format!("deserialize: {}", e))
+}
 
 /// round-trips `x` through both formats; `same` decides equality (and "still works")
 fn both<T: Serialize + DeserializeOwned>(cx: &mut Ctx, ty: &str, x: &T, same: &dyn Fn(&T, &T) -> bool, detail: &dyn Fn() -> serde_json::Value) {
-    for (fmt, f) in [("json", rt_json::<T> as fn(&T) -> Result<T, String>), ("bincode", rt_bincode::<T> as fn(&T) -> Result<T, String>)] {
+    for (fmt, f) in [("json", rt_json::<T> as fn(&T) -> Result<T, String>), ("bincode", rt_bincode::<T> as fn(&T) -> Result<T, String>),
+                     ("json_reader", rt_json_reader::<T> as fn(&T) -> Result<T, String>), ("bincode_reader", rt_bincode_reader::<T> as fn(&T) -> Result<T, String>)] {
         cx.eval();
         let r = guard(&format!("serde {} {}", fmt, ty), || f(x));
         match r {
